@@ -182,7 +182,15 @@ func c16Load(t *tape.Tape, a *c16Arr) (r c16Result) {
 				per[j*n/len(l)].WriteString(f)
 			}
 			for j := 0; j < n; j++ {
-				fsys.Files[fmt.Sprintf("part%d.graphql", j)] = []byte(per[j].String())
+				txt := per[j].String()
+				switch t.Draw(4) {
+				case 0:
+					// a file that ends in a comment without a final newline
+					txt = strings.TrimRight(txt, "\n") + " # end of part " + fmt.Sprint(j)
+				case 1:
+					txt = strings.TrimRight(txt, "\n")
+				}
+				fsys.Files[fmt.Sprintf("part%d.graphql", j)] = []byte(txt)
 			}
 			err = root.ParseFS(fsys, "*.graphql")
 		} else {
